@@ -311,6 +311,61 @@ def r5(ctx: Context, sites) -> None:
                 ctx.add("R5", f"{o.qualname}::read-errors-are-not-absence", not swallow, o.loc(swallow[0]) if swallow else o.loc(), "" if not swallow else f"`except {ast.unparse(swallow[0].type) if swallow[0].type else ''}` turns a failed read into the default ('no record yet'): on re-execution the deterministic executor then launches the sub-task again or stores a new value over the recorded one")
 
 
+def r6(ctx: Context) -> None:
+    """The replay position lives on the invocation OBJECT (WorkflowContext.deterministic keeps the executor there):
+    the object must not outlive one execution."""
+    from ..flow import build_cfg, cfg_node_of, parent_map, reaching_definitions
+
+    ctx.rule("R6", "an invocation object is built anew for every lookup: each `return` of the state backends' get_invocation yields the result of a DistributedInvocation constructor call made in that same call (never a value taken from a slot of the backend), and the method is not wrapped by a cache decorator - the deterministic executor hangs on the object, so an object shared by two executions of one id (retry, recovery) makes the second draw fresh values instead of replaying")
+    wc = ctx.repo.cls("WorkflowContext").methods.get("deterministic")
+    on_obj = wc is not None and any(isinstance(a, ast.Assign) and any(isinstance(t, ast.Attribute) and t.attr == "_deterministic_executor" and isinstance(t.value, ast.Name) and t.value.id != "self" for t in a.targets) for a in ast.walk(wc.node))
+    ctx.add("R6", "WorkflowContext.deterministic::executor-kept-on-the-invocation-object", bool(on_obj), wc.loc() if wc else "", "" if on_obj else "the executor is no longer kept on the executing invocation object: this rule's premise vanished (see R1 for slots of long-lived objects)")
+    base = ctx.repo.cls("BaseStateBackend")
+    n = 0
+    for c in [base] + [x for x in ctx.repo.classes.values() if x is not base and base in x.mro()]:
+        f = c.methods.get("get_invocation")
+        if f is None:
+            continue
+        n += 1
+        deco = [d for d in f.decorators if any(k in d for k in ("cache", "memo"))]
+        ctx.add("R6", f"{f.qualname}::not-memoised", not deco, f.loc(), "" if not deco else f"decorated with {deco}: one object per id for the life of the backend")
+        g = build_cfg(f.node)
+        defs, IN = reaching_definitions(g)
+        pm = parent_map(f.node)
+
+        def fresh(v: ast.AST, at: ast.AST, depth: int = 0) -> str | None:
+            if isinstance(v, ast.Call):
+                t = ast.unparse(v.func)
+                if t.split(".")[0].endswith("Invocation") or t.startswith("super()."):
+                    return None
+                return f"`{ast.unparse(v)[:60]}` is not a constructor call of the invocation class"
+            if isinstance(v, ast.Name) and depth < 4:
+                rd = {d for nd in cfg_node_of(g, f.node, at, pm) for d in IN[nd.id] if d.name == v.id}
+                if not rd:
+                    return f"`{v.id}` has no local definition"
+                for d in rd:
+                    if d.value is None or d.kind != "assign":
+                        return f"`{v.id}` is bound by a {d.kind} definition"
+                    holder = next((nd.ast for nd in g.nodes if nd.id == d.node and nd.ast is not None), at)
+                    w = fresh(d.value, holder, depth + 1)
+                    if w:
+                        return w
+                return None
+            if isinstance(v, ast.NamedExpr):
+                return fresh(v.value, at, depth + 1)
+            return f"`{ast.unparse(v)[:60]}` is not built in this call"
+
+        rets = [r for r in walk_no_nested(f.node) if isinstance(r, ast.Return) and r.value is not None]
+        if not rets:
+            raise AnalysisError(f"no-return: {f.qualname}")
+        for k, r in enumerate(rets):
+            why = fresh(r.value, r)
+            ctx.add("R6", f"{f.qualname}::returns-a-freshly-built-object::{k}", why is None, f.loc(r), "" if why is None else f"{why}: a caller can receive the object of an earlier execution of the same id, with its executor and advanced operation counters")
+        stores = [a for a in walk_no_nested(f.node) if isinstance(a, ast.Assign) and any(isinstance(t, (ast.Subscript, ast.Attribute)) and ast.unparse(t).startswith("self.") for t in a.targets)]
+        ctx.add("R6", f"{f.qualname}::keeps-no-reference", not stores, f.loc(stores[0]) if stores else f.loc(), "" if not stores else f"`{ast.unparse(stores[0])[:70]}` keeps a reference in the backend")
+    ctx.floor("R6", "get_invocation implementations", n, 1)
+
+
 def run(ctx: Context) -> None:
     sites = sqlmini.sites(ctx.repo)
     r1(ctx)
@@ -318,6 +373,7 @@ def run(ctx: Context) -> None:
     r3(ctx)
     r4(ctx)
     r5(ctx, sites)
+    r6(ctx)
     ctx.exhaustive = True
     ctx.not_decided += [
         "concurrent executions of one workflow: lookup-then-store is check-then-act (observation, not armed)",
